@@ -265,6 +265,23 @@ def r18c(model, ctx):
     fi = model.func(f"{IO}::FFBuffer.__init__")
     t = unparse(fi)
     ok = 'self._i_domain = i_domain or "sync"' in t.replace("'", '"') and 'self._o_domain = o_domain or "sync"' in t.replace("'", '"')
+    if not ok:
+        # by path: on every completing path each of _i_domain/_o_domain is either `<x>_domain or "sync"` or None, and each
+        # default occurs on some path
+        seen = {"_i_domain": set(), "_o_domain": set()}
+        ps = [p_ for p_ in run_paths([b for b in fi.body if not (isinstance(b, ast.Expr) and isinstance(b.value, ast.Constant))])
+              if p_.how != "raise"]
+        ok = bool(ps)
+        for p_ in ps:
+            st = {}
+            for e in p_.effects:
+                if isinstance(e, ast.Assign) and isinstance(e.targets[0], ast.Attribute) and unparse(e.targets[0].value) == "self":
+                    st[e.targets[0].attr] = unparse(e.value).replace("'", '"')
+            for attr, arg in (("_i_domain", "i_domain"), ("_o_domain", "o_domain")):
+                v = st.get(attr)
+                ok = ok and v in (f'{arg} or "sync"', "None")
+                seen[attr].add(v)
+        ok = ok and all(f'{arg} or "sync"' in seen[attr] for attr, arg in (("_i_domain", "i_domain"), ("_o_domain", "o_domain")))
     ctx.check(ok, R, "FFBuffer.__init__:domains", "domains default to sync", "i_domain/o_domain must default to 'sync'", f"{IO}:{fi.lineno}")
 
 
